@@ -107,6 +107,7 @@ def facts_path(config, repo=None):
         env = dict(os.environ)
         env.update({
             "CARGO_NET_OFFLINE": "true",
+            "CARGO_INCREMENTAL": "0",
             "LD_LIBRARY_PATH": sysroot() + "/lib",
             "RUSTFLAGS": "-Zmir-opt-level=0 -Awarnings",
             "RUSTC_WORKSPACE_WRAPPER": DRIVER,
@@ -130,14 +131,18 @@ def facts_path(config, repo=None):
     return out, sha
 
 
-def _gc(keep=12):
+def _gc(keep=24, min_age_s=1800):
+    """drop the oldest cached fact directories; never one younger than min_age_s (another process may be
+    writing or reading it: the self-test runs several extractions in parallel)"""
     base = os.path.join(CACHE, "facts")
     try:
         ds = sorted((os.path.getmtime(os.path.join(base, d)), d) for d in os.listdir(base))
     except FileNotFoundError:
         return
-    for _, d in ds[:-keep]:
-        shutil.rmtree(os.path.join(base, d), ignore_errors=True)
+    now = time.time()
+    for mt, d in ds[:-keep]:
+        if now - mt > min_age_s:
+            shutil.rmtree(os.path.join(base, d), ignore_errors=True)
 
 
 if __name__ == "__main__":
